@@ -7,6 +7,69 @@ NOTES = (
 )
 
 CHECKS = {
+    "C01": {
+        "technique": "symbolic builder-term extraction + rational normaliser over the syn AST (clip factor, norm pipeline), positional def-use of the clipping constant, arm table of absolute_upper_bound",
+        "level": "Decides the structural clauses of the sensitivity bound: one clipping constant feeds both the clip and the Gaussian sigma (S1), the per-unit L2 norm over all groups is computed before scaling and the scaled rows are what is summed (S2), "
+                 "the clip factor normalises to 1/max(1, n/C) with the C=0 branch 0 (S3), the absolute bound is max(|lo|,|hi|) without i64 overflow (S4). Execution of the produced SQL on neighbouring databases is not decided.",
+        "design_ref": "DESIGN.md §3 C01",
+        "note": "Trusted: the Function variants denote what their names say; SQL engines evaluate the produced relation as the term denotes; privacy-unit tracking (C05) delivers the unit column.",
+    },
+    "C03": {
+        "technique": "flow-sensitive MIR dataflow of DpEvent carriers (must-reach the return place on every normal path) + AST term rules for budget agreement and conservation",
+        "level": "Decides that no DpEvent produced in the DP / rewriting code is discarded on a normally returning path (V1), that each Gaussian / tau mechanism site reports an event built from a budget at least the one it used (V2), "
+                 "and that shares and splits conserve the budget handed down (V3). The Gaussian calibration formula itself is numeric and not decided.",
+        "design_ref": "DESIGN.md §3 C03",
+        "note": "Trusted: rustc MIR (mir-opt-level 0); helper-moved mechanisms fail closed as UNDECIDED; over-reporting is not a violation.",
+    },
+    "C04": {
+        "technique": "AST def-use / lineage evaluation of the tau-thresholding pipeline, closed-term check of the tau formula, MIR def-use of builder call order",
+        "level": "Decides parameter agreement of cap/noise/tau/event (K1), the pipeline order dedupe->cap->count->noise->filter->project on every non-error return (K2), strict lower-bound filter on the noisy count (K3), the public-values gate (K4), "
+                 "aggregation over the join with released keys (K5), the closed form of tau (K6) and that no builder restores the unprotected input (B1). Randomness and SQL semantics of the produced relation are not decided.",
+        "design_ref": "DESIGN.md §3 C04",
+        "note": "Trusted: Relation::{unique, limit_col_contributions} do what their names say (bodies not analysed); statrs Normal::inverse_cdf.",
+    },
+    "C05": {
+        "technique": "AST term/arm tables of PrivacyUnitTracking and JoinBuilder::and, MIR aggregate facts for the PupRelation typestate, MIR def-use of builder call order, sibling cross-check of the protected-table predicate",
+        "level": "Decides the structural necessary conditions of 'a tracked row depends only on its own unit': unit-id equality ANDed onto the original operator (Y1), tracked-side columns in published joins (Y1b), group-by-unit under Hard / refusal under Soft (Y2), "
+                 "closed PupRelation typestate (Y3), inner FK join on the right ids (Y4), JoinBuilder::and covers every ON-carrying join kind (Y5), map/set carry the unit columns (Y6), builder order (B1), setter/tracker agreement (T5).",
+        "design_ref": "DESIGN.md §3 C05",
+        "note": "Not decided: 'exactly the rows of D restricted to u' over all databases, NULL unit ids from outer joins (the join kind is a runtime value).",
+    },
+    "C06": {
+        "technique": "abstract interpretation of closure ASTs (monotonicity class x sign/range per declared piece) against a reviewed transfer table; normal-form comparison of the constructor plumbing, aggregate-image idioms, corner hull and wrapper fallbacks",
+        "level": "Decides the soundness premise of box-image propagation for every PartitionnedMonotonic site: the closure is separately monotone on every declared piece and the pieces cover the domain (M, P), aggregate images hull the element set (A), "
+                 "super_image takes least/greatest over all corners (O2), wrappers fall back to the co-domain (O). Exhaustive over the function table; numeric adequacy of hand-written aggregate bounds is not decided.",
+        "design_ref": "DESIGN.md §3 C06",
+        "note": "Trusted: the reviewed transfer table (qv/c06_rules.py, one mathematical reason per line); unknown operations fail closed.",
+    },
+    "C07": {
+        "technique": "interval / finite-set abstract interpretation of Pointwise closures against a chrono/SQL range table; arm tables of join nullability; extracted size terms evaluated against closed-form row-count bounds on a parameter grid",
+        "level": "Decides that declared co-domains contain the closure ranges (R), that outer-join nullability and ON-narrowing follow the join kind (Z1), that the stored size interval contains the possible row counts for every node kind (Z2) "
+                 "and that set-operation column types contain both inputs where needed (Z3). Data-dependent clauses of the property are not decided.",
+        "design_ref": "DESIGN.md §3 C07",
+        "note": "Trusted: the range table qv/c07_ranges.py (chrono 0.4 semantics); uniqueness flags are assumed right (C14).",
+    },
+    "C09": {
+        "technique": "symbolic evaluation of the aggregate recombination to terms + rational normaliser (equality up to algebra, with distinguishing valuations), DISTINCT classification tables, cross-site size provenance",
+        "level": "Decides that, per Aggregate arm, the output term over the noisy sums equals the textbook recombination (W1), that DISTINCT aggregates are rewritten to their twins over a de-duplicating group-by (W2) and that the data-set size bounding the multiplicity is the input's (W3). "
+                 "Group completeness, NULL handling by engines and floating-point error are not decided.",
+        "design_ref": "DESIGN.md §3 C09",
+        "note": "Trusted: C01's pipeline delivers exact sums when sigma=0 and no norm exceeds C.",
+    },
+    "C10": {
+        "technique": "symbolic evaluation of match arms into name-free terms; arm tables of filter_by_function / filter_by_join_operator / filter leaves judged against 'contains every satisfying row'",
+        "level": "Decides for every arm of the narrowing functions that the returned type is built only from operations that keep every satisfying row (union for Or, own-side greatest/least for comparisons, intersection for Eq/InList, unchanged defaults, preserved outer side). "
+                 "Soundness of greatest/least/intersection/super_image themselves is C06/C11.",
+        "design_ref": "DESIGN.md §3 C10",
+        "note": "Unknown row-set terms fail closed (UNDECIDED).",
+    },
+    "C11": {
+        "technique": "MIR who-may-write facts for the interval vector and return-place dominance in the two mutators; AST rules for hull construction; simulated ordered match over all variant pairs for the four lattice operations",
+        "level": "Decides encapsulation of the interval-set invariant (L1), that simplification returns self or the min/max hull (L2), conservative defaults and neutral/absorbing elements of the cross-variant dispatch over all 21x21 pairs (L3) and the conversion direction of cross-variant arms (L4). "
+                 "Index arithmetic of union/intersection and per-variant laws over values are not decided.",
+        "design_ref": "DESIGN.md §3 C11",
+        "note": "L1(d) compile-fail witnesses are in /verif/witness (thorough tier).",
+    },
     "C02": {
         "technique": "exhaustive table proof over the syn AST: label-lattice invariants of every RewritingRule row, pattern-match simulation of the Rewriter dispatch, acceptance sets, who-may-call",
         "level": "Exhaustive over the finite rule table: every RewritingRule::new row satisfies the non-interference invariants (T1), is dispatched by the Rewriter to the mechanism it names and never to the pass-through arm when it outputs PUP/DP (T2), "
